@@ -37,6 +37,7 @@ WHAT = {
     "STM": "after a failing feature with --stop or an aborted run no further feature is run - and only then is a feature passed over",
     "Y4": "every feature is reported to every reporter exactly once, run or not; end() once",
     "F4": "uri() before each run feature; every formatter closed exactly once after the loop",
+    "K10": "the capture is set up before the first hook of the run (before_all) is called",
     "X8": "root cleanups run after after_all, inside try/except, and a failure makes the run fail",
 }
 
@@ -125,6 +126,11 @@ def check_run_model(chk, ix, rules, tier="quick", mutate=None):
                 chk.fail(_f("F4", fi, RM, ex, err, "formatter protocol: " + err))
             else:
                 chk.ok("F4", {"formatters_closed": f["closed"]}, nontrivial_key=(repr(f["n_run"]), f["ki"]))
+        if "K10" in rules:
+            if f.get("k10_err"):
+                chk.fail(_f("K10", fi, RM, ex, "before_all before setup_capture", f["k10_err"]))
+            else:
+                chk.ok("K10", {"capture set up": "before the first hook"}, nontrivial_key=("k10", f["allseq"]))
         if "X8" in rules:
             if not f["cleanups_called"]:
                 chk.fail(_f("X8", fi, RM, ex, "root-cleanups-not-run", "run_model returns without running the test-run level cleanups"))
